@@ -1,6 +1,6 @@
 (* Props/C15.v — Cancelling an async read_frame loses and duplicates nothing (over the modelled lowering, as C14). *)
 From FB Require Import Sem.Base Sem.Lemmas Sem.ReadBuf Sem.Async Model.Fb Model.TokioAsync Spec.Api
-  Facets.Fb Facets.Fb2 Facets.Rf Facets.Async Props.C14.
+  Facets.Fb Facets.Fb2 Facets.Rf Facets.Async Facets.AsyncCo Props.C14.
 Open Scope Z_scope.
 
 (* for every reader, every deframer within bounds, every number of polls and EVERY two cancellation patterns (in particular: any
@@ -10,6 +10,11 @@ Theorem c15_cancel_invisible : forall SIZE chk RS (A : AsyncReader RS) df, (fora
   forall n cancel cancel' w, WI SIZE w ->
   arf_drive chk A n cancel df w = arf_drive chk A n cancel' df w.
 Proof. exact Facets.Async.c15_cancel_invisible. Qed.
+
+(* the same for copy_once_from *)
+Theorem c15_copy_once_cancel_invisible : forall SIZE chk RS (A : AsyncReader RS) n cancel cancel' w, WI SIZE w ->
+  aco_drive chk A n cancel w = aco_drive chk A n cancel' w.
+Proof. exact Facets.AsyncCo.aco_cancel_invisible. Qed.
 
 (* the key lemma: the state held at the await is a fixed point of the loop prefix (nothing lives in the future but the view) *)
 Theorem c15_await_state_is_buffer : forall SIZE chk df, (forall u, zlen u <= SIZE -> df_in_bounds df u) ->
@@ -25,4 +30,5 @@ Example c15_ex :
 Proof. vm_compute. reflexivity. Qed.
 
 Print Assumptions c15_cancel_invisible.
+Print Assumptions c15_copy_once_cancel_invisible.
 Print Assumptions c15_await_state_is_buffer.
